@@ -7,6 +7,9 @@ import Heathcliff.Proofs.C20H
 import Heathcliff.Proofs.C20I
 import Heathcliff.Proofs.C20J
 import Heathcliff.Proofs.C20K
+import Heathcliff.Proofs.C20M
+import Heathcliff.Proofs.C20N
+import Heathcliff.Proofs.C20O
 
 /- Property C20: homomorphic matrix products and convolutions equal plaintext ones, all shapes.
    Property theorems only (proofs are the helper lemmas of Heathcliff/Proofs/C20*.lean). -/
@@ -227,9 +230,8 @@ theorem bolt_rot_mod {α : Type} (n s : Nat) (v : Nat → α) (i : Nat) : c20_ro
   HC.c20_rot_mod n s v i
 
 /-! ### BOLT: the MODEL of the three helpers (`Model/Matmul.lean`: encode maps, rotation schedules on slot vectors, decode maps) is
-     compared with the code bit for bit (`bolt_*_encx/encw/enco/run` lines).  Proved about the model: the slot actions and the
-     baby-step / giant-step algebra of `bolt_cp`.  The end-to-end statements below are concrete statements about the model
-     (they replace the former schema `BoltStatement`); they are NOT proved. -/
+     compared with the code bit for bit (`bolt_*_encx/encw/enco/run` lines).  Proved about the model: the slot actions, the
+     baby-step / giant-step algebra and the end-to-end statements below (they replace the former schema `BoltStatement`). -/
 
 /-- `rotate_rows` by `a` whole columns, read at column `c`, entry `j` (slot = column·gap + entry, N = 2·half·gap) -/
 theorem bolt_rotRows_col : type_of% @HC.c20_rotRows_col := @HC.c20_rotRows_col
@@ -248,26 +250,150 @@ theorem bolt_shift_lt : type_of% @HC.c20_boltShift_lt := @HC.c20_boltShift_lt
 theorem bolt_shift_split : type_of% @HC.c20_boltShift_split := @HC.c20_boltShift_split
 theorem bolt_shift_step : type_of% @HC.c20_shift_step := @HC.c20_shift_step
 
-/-- End-to-end statement for `MatmulBoltCp` over the MODEL, any commutative ring (S = ZMod t: the product modulo t): NOT proved -/
+/-- End-to-end statement for `MatmulBoltCp` over the MODEL, any commutative ring (S = ZMod t: the product modulo t), for every helper
+    the model's constructor accepts, with the baby-step / giant-step split its search returns.  `N < 2^64` is the `usize` range (the
+    model's `ceilTwoPower` makes at most 64 doublings, as the code's arithmetic lives in `usize`); it was missing in the first
+    version of this statement. -/
 def BoltCpStatement : Prop :=
-  ∀ (S : Type) [CommRing S] (m r n N : Nat) (h : BoltCp) (x w : Nat → S), BoltCp.new m r n N = .ok h → (∃ e, N = 2^e) →
+  ∀ (S : Type) [CommRing S] (m r n N : Nat) (h : BoltCp) (x w : Nat → S), BoltCp.new m r n N = .ok h → (∃ e, N = 2^e) → N < 2^64 →
     ∃ X W Y out, boltCpEncodeInputs h 0 x (m * r) = .ok X ∧ boltCpEncodeWeights h 0 w (r * n) = .ok W ∧
       boltCpMultiply h (· + ·) (· * ·) 0 X W = .ok Y ∧ boltCpDecodeOutputs h 0 Y = .ok out ∧
       ∀ i j, i < m → j < n → out.getD (i * n + j) 0 = ∑ k ∈ range r, x (i * r + k) * w (k * n + j)
 
-/-- ... for `MatmulBoltCcCr`: NOT proved -/
+/-- ... PROVED -/
+theorem BoltCpStatement_proof : BoltCpStatement := by
+  intro S _ m r n N h x w hnew hpow hN
+  obtain ⟨X, W, Y, out, h1, h2, h3, h4, _, h6⟩ := HC.c20_boltCp_new hnew hpow hN x w
+  exact ⟨X, W, Y, out, h1, h2, h3, h4, h6⟩
+
+/-- **`MatmulBoltCp`, whole pipeline** for EVERY helper with `N = s·gap`, `s = irc·orc = 2·half`, `orc` even, `0 < m ≤ gap`
+    (the bundle `c20_CpOK`: any shape, any such split, not only the searched one): encode inputs → encode weights → the
+    rotate-multiply-accumulate schedule of `multiply` (baby steps on the inputs, one product per rotation class and polynomial pair,
+    optional accumulators, giant-step tail with the half sum) → decode  =  `x · w` -/
+theorem bolt_cp_whole : type_of% @HC.c20_boltCp_whole := @HC.c20_boltCp_whole
+/-- ... for the helpers `MatmulBoltCp::new` returns (the split search returns a power of two below `s`) -/
+theorem bolt_cp_new : type_of% @HC.c20_boltCp_new := @HC.c20_boltCp_new
+/-- `MatmulBoltCp::new` establishes `c20_CpOK` -/
+theorem bolt_cp_new_ok : type_of% @HC.c20_boltCpNew_ok := @HC.c20_boltCpNew_ok
+/-- `MatmulBoltCpSmall::multiply` on arbitrary input / weight polynomials -/
+theorem bolt_cp_multiply_spec : type_of% @HC.c20_cpMulPart_spec := @HC.c20_cpMulPart_spec
+/-- the giant-step tail of `multiply` -/
+theorem bolt_cp_tail_spec : type_of% @HC.c20_cpTail_spec := @HC.c20_cpTail_spec
+
+/-- non-vacuity: the constructor accepts, e.g., 3×9·9×9 at N = 32 with (gap, s, irc, orc) = (4, 8, 2, 4) (baby steps, rotating giant
+    steps and the half sum all occur); the hypotheses of `bolt_cp_new` are satisfiable -/
+example : BoltCp.new 3 9 9 32 = .ok ⟨32, 3, 3, 9, 9, 4, 8, 2, 4⟩ := by rfl
+example (x w : Nat → ℤ) := bolt_cp_new (show BoltCp.new 3 9 9 32 = .ok ⟨32, 3, 3, 9, 9, 4, 8, 2, 4⟩ by rfl) ⟨5, rfl⟩
+  (by decide) x w
+/-- ... over ℤ/t (slot vectors of a BFV plaintext): the product modulo the plain modulus -/
+example (t : Nat) (x w : Nat → ZMod t) := bolt_cp_new (show BoltCp.new 3 9 9 32 = .ok ⟨32, 3, 3, 9, 9, 4, 8, 2, 4⟩ by rfl) ⟨5, rfl⟩
+  (by decide) x w
+/-- ... and the model's pipeline on that shape over ℤ/97 (x[i] = 7i + 3, w[i] = 11i + 5): entry (2, 8) is Σ_k x[2·9 + k]·w[9k + 8] -/
+example : (do
+    let h ← BoltCp.new 3 9 9 32
+    let X ← boltCpEncodeInputs h 0 (fun i => (7 * i + 3) % 97) 27
+    let W ← boltCpEncodeWeights h 0 (fun i => (11 * i + 5) % 97) 81
+    let Y ← boltCpMultiply h (fun a b => (a + b) % 97) (fun a b => (a * b) % 97) 0 X W
+    let out ← boltCpDecodeOutputs h 0 Y
+    pure (out.getD 26 0)) = .ok (((List.range 9).map fun k => ((7 * (18 + k) + 3) % 97) * ((11 * (9 * k + 8) + 5) % 97)).sum % 97) := by
+  decide +kernel
+
+/-- ... for `MatmulBoltCcCr` (LHS column-major, RHS row-major, product collected by diagonals); `N < 2^64` added as for `bolt_cp` -/
 def BoltCcCrStatement : Prop :=
-  ∀ (S : Type) [CommRing S] (m r n N : Nat) (h : BoltCc) (x w : Nat → S), BoltCc.newCr m r n N = .ok h → (∃ e, N = 2^e) →
+  ∀ (S : Type) [CommRing S] (m r n N : Nat) (h : BoltCc) (x w : Nat → S), BoltCc.newCr m r n N = .ok h → (∃ e, N = 2^e) → N < 2^64 →
     ∃ X W Y out, boltCrEncodeInputs h 0 x (m * r) = .ok X ∧ boltCrEncodeWeights h 0 w (r * n) = .ok W ∧
       boltCrMultiply h (· + ·) (· * ·) 0 X W = .ok Y ∧ boltCrDecodeOutputs h 0 Y = .ok out ∧
       ∀ i j, i < m → j < n → out.getD (i * n + j) 0 = ∑ k ∈ range r, x (i * r + k) * w (k * n + j)
 
-/-- ... for `MatmulBoltCcDc`: NOT proved -/
+/-- ... PROVED -/
+theorem BoltCcCrStatement_proof : BoltCcCrStatement := by
+  intro S _ m r n N h x w hnew hpow hN
+  obtain ⟨X, W, Y, out, h1, h2, h3, h4, _, h6⟩ := HC.c20_boltCr_new hnew hpow hN x w
+  exact ⟨X, W, Y, out, h1, h2, h3, h4, h6⟩
+
+/-- **`MatmulBoltCcCr`, whole pipeline** for EVERY helper with `N = gsc·gap`, `gsc = 2^(g+1)`, `0 < m ≤ gap` (the bundle `c20_CcOK`)
+    and `r > 0`: all block pairs, `multiply` of the small helper (rotate the RHS by the shift, multiply, `sum_inplace`, mask the
+    diagonal segment, optional accumulators; the wrapped part of a diagonal from the rotation by `shift − m`), decode by diagonals -/
+theorem bolt_cc_cr_whole : type_of% @HC.c20_boltCr_whole := @HC.c20_boltCr_whole
+theorem bolt_cc_cr_new : type_of% @HC.c20_boltCr_new := @HC.c20_boltCr_new
+theorem bolt_cc_cr_new_ok : type_of% @HC.c20_boltCrNew_ok := @HC.c20_boltCrNew_ok
+/-- `sum_inplace`: after log-many rotations (the last one across the rows) every column holds the sum of all columns -/
+theorem bolt_sum_all_spec : type_of% @HC.c20_boltSumAll_spec := @HC.c20_boltSumAll_spec
+/-- `MatmulBoltCcCrSmall::multiply` on arbitrary polynomials: diagonal `sh` at polynomial `sh / gsc`, column `sh mod gsc` -/
+theorem bolt_cc_cr_multiply_spec : type_of% @HC.c20_crMulSmall_spec := @HC.c20_crMulSmall_spec
+/-- the index map of `decode_outputs` (cc_cr) over all blocks -/
+theorem bolt_cc_cr_decode_spec : type_of% @HC.c20_boltCrDecode_spec := @HC.c20_boltCrDecode_spec
+
+/-- non-vacuity: the constructor accepts 5×7·7×3 at N = 16 (block side 5, gap 8, two columns per polynomial) and 3×5·5×3 at N = 32
+    (gap 4, eight columns: three rotations in `sum_inplace`); the hypotheses of `bolt_cc_cr_new` are satisfiable -/
+example : BoltCc.newCr 5 7 3 16 = .ok ⟨16, 5, 7, 3, 5, 8, 2⟩ := by rfl
+example : BoltCc.newCr 3 5 3 32 = .ok ⟨32, 3, 5, 3, 3, 4, 8⟩ := by rfl
+example (x w : Nat → ℤ) := bolt_cc_cr_new (show BoltCc.newCr 3 5 3 32 = .ok ⟨32, 3, 5, 3, 3, 4, 8⟩ by rfl) ⟨5, rfl⟩ (by decide) x w
+/-- ... and the model's pipeline on 3×5·5×3 at N = 32 over ℤ/97: entry (2, 1) -/
+example : (do
+    let h ← BoltCc.newCr 3 5 3 32
+    let X ← boltCrEncodeInputs h 0 (fun i => (7 * i + 3) % 97) 15
+    let W ← boltCrEncodeWeights h 0 (fun i => (11 * i + 5) % 97) 15
+    let Y ← boltCrMultiply h (fun a b => (a + b) % 97) (fun a b => (a * b) % 97) 0 X W
+    let out ← boltCrDecodeOutputs h 0 Y
+    pure (out.getD 7 0)) = .ok (((List.range 5).map fun k => ((7 * (10 + k) + 3) % 97) * ((11 * (3 * k + 1) + 5) % 97)).sum % 97) := by
+  decide +kernel
+
+/-- ... for `MatmulBoltCcDc` (LHS by diagonals, RHS column-major).  Two hypotheses were missing in the first version of this statement:
+    `N < 2^64` (as above) and `0 < r`: the constructor accepts `r = 0` but `multiply` fails on the empty list of block products
+    (`bolt_cc_dc_r0_refused` below; the code panics in the same place, `item.unwrap()` — harness line `bolt_ccdc_r0`) -/
 def BoltCcDcStatement : Prop :=
-  ∀ (S : Type) [CommRing S] (m r n N : Nat) (h : BoltCc) (x w : Nat → S), BoltCc.newDc m r n N = .ok h → (∃ e, N = 2^e) →
+  ∀ (S : Type) [CommRing S] (m r n N : Nat) (h : BoltCc) (x w : Nat → S), BoltCc.newDc m r n N = .ok h → (∃ e, N = 2^e) → N < 2^64 →
+    0 < r →
     ∃ X W Y out, boltDcEncodeInputs h 0 x (m * r) = .ok X ∧ boltDcEncodeWeights h 0 w (r * n) = .ok W ∧
       boltDcMultiply h (· + ·) (· * ·) 0 X W = .ok Y ∧ boltDcDecodeOutputs h 0 Y = .ok out ∧
       ∀ i j, i < m → j < n → out.getD (i * n + j) 0 = ∑ k ∈ range r, x (i * r + k) * w (k * n + j)
+
+/-- ... PROVED -/
+theorem BoltCcDcStatement_proof : BoltCcDcStatement := by
+  intro S _ m r n N h x w hnew hpow hN hr
+  obtain ⟨X, W, Y, out, h1, h2, h3, h4, _, h6⟩ := HC.c20_boltDc_new hnew hpow hN hr x w
+  exact ⟨X, W, Y, out, h1, h2, h3, h4, h6⟩
+
+/-- the witness against the first version of the statement: m = 1, r = 0, n = 1, N = 2 is accepted by the constructor and the
+    model's `multiply` refuses (over ℕ with arithmetic modulo 17) -/
+theorem bolt_cc_dc_r0_refused :
+    (BoltCc.newDc 1 0 1 2).toOption.isSome = true ∧
+    (do let h ← BoltCc.newDc 1 0 1 2
+        let X ← boltDcEncodeInputs h 0 (fun _ => 0) 0
+        let W ← boltDcEncodeWeights h 0 (fun _ => 0) 0
+        boltDcMultiply h (fun a b => (a + b) % 17) (fun a b => (a * b) % 17) 0 X W) = .error .other := by
+  decide +kernel
+
+/-- **`MatmulBoltCcDc`, whole pipeline** for EVERY helper with `N = gsc·gap`, `gsc = 2^(g+1)`, `0 < m ≤ gap` (`c20_CcOK`) and `r > 0`:
+    all block pairs, `multiply` of the small helper (left shifts, then right shifts of the RHS; `spread_inputs` of the masked diagonal
+    segment; optional accumulators), `add_inplace` of the block products, column-major decode -/
+theorem bolt_cc_dc_whole : type_of% @HC.c20_boltDc_whole := @HC.c20_boltDc_whole
+theorem bolt_cc_dc_new : type_of% @HC.c20_boltDc_new := @HC.c20_boltDc_new
+theorem bolt_cc_dc_new_ok : type_of% @HC.c20_boltDcNew_ok := @HC.c20_boltDcNew_ok
+/-- `spread_inputs`: the masked segment of one column is copied onto every column -/
+theorem bolt_spread_spec : type_of% @HC.c20_boltSpread_spec := @HC.c20_boltSpread_spec
+/-- `MatmulBoltCcDcSmall::multiply` on arbitrary polynomials -/
+theorem bolt_cc_dc_multiply_spec : type_of% @HC.c20_dcMulSmall_spec := @HC.c20_dcMulSmall_spec
+/-- the column-major encoder / decoder shared by the helpers -/
+theorem bolt_col_major_encode_spec : type_of% @HC.c20_boltColMajor_spec := @HC.c20_boltColMajor_spec
+theorem bolt_col_major_decode_spec : type_of% @HC.c20_boltColMajorDecode_spec := @HC.c20_boltColMajorDecode_spec
+
+/-- non-vacuity: the constructor accepts 3×5·5×3 at N = 32 (block side 5, gap 8, four columns: two doublings in `spread_inputs`) and
+    5×3·3×7 at N = 16 (block side 5, gap 8, two columns, one block); the hypotheses of `bolt_cc_dc_new` are satisfiable -/
+example : BoltCc.newDc 3 5 3 32 = .ok ⟨32, 3, 5, 3, 5, 8, 4⟩ := by rfl
+example : BoltCc.newDc 5 3 7 16 = .ok ⟨16, 5, 3, 7, 5, 8, 2⟩ := by rfl
+example (x w : Nat → ℤ) := bolt_cc_dc_new (show BoltCc.newDc 3 5 3 32 = .ok ⟨32, 3, 5, 3, 5, 8, 4⟩ by rfl) ⟨5, rfl⟩ (by decide)
+  (by decide) x w
+/-- ... and the model's pipeline on 3×5·5×3 at N = 32 over ℤ/97: entry (2, 1) -/
+example : (do
+    let h ← BoltCc.newDc 3 5 3 32
+    let X ← boltDcEncodeInputs h 0 (fun i => (7 * i + 3) % 97) 15
+    let W ← boltDcEncodeWeights h 0 (fun i => (11 * i + 5) % 97) 15
+    let Y ← boltDcMultiply h (fun a b => (a + b) % 97) (fun a b => (a * b) % 97) 0 X W
+    let out ← boltDcDecodeOutputs h 0 Y
+    pure (out.getD 7 0)) = .ok (((List.range 5).map fun k => ((7 * (10 + k) + 3) % 97) * ((11 * (3 * k + 1) + 5) % 97)).sum % 97) := by
+  decide +kernel
 
 /-- the model's `bolt_cp` pipeline on a concrete instance (N = 8, 3×2·2×3 over ℤ/17): the schedule computes the product -/
 example : (do
